@@ -1163,8 +1163,8 @@ where
             crate::verif::event(
                 "checkout",
                 &format!(
-                    "\"cpid\":{},\"port\":{},\"pool\":\"{}\"",
-                    self.process_id, address.port, self.pool_name
+                    "\"cpid\":{},\"host\":\"{}\",\"port\":{},\"pool\":\"{}\"",
+                    self.process_id, address.host, address.port, self.pool_name
                 ),
             );
 
